@@ -31,10 +31,16 @@ def case(ctx, case):
 def routing(ctx, case, cfg, family, seed, name):
     R.TAU_LOAD = 1e-5
     env, O = envzoo.make(cfg)
-    td_in = envzoo.instances(env, cfg, family, 2, seed)[:1].clone()
+    td_two = envzoo.instances(env, cfg, family, 2, seed)
+    td_in = td_two[:1].clone()
     td0 = env.reset(td_in.clone())
     inst = O.extract(td_in, td0, 0, env)
-    leaves, complete, st = explore.explore(env, td_in, max_nodes=MAX_NODES, max_depth=O.step_bound(inst) + 2)
+    companion = None
+    if case.get("companion"):
+        # the second generated instance rides along at row 0 of every replay batch (other fleet size, other demands ...)
+        companion = td_two[1:2].clone()
+        ctx.count("c05_explored_in_company")
+    leaves, complete, st = explore.explore(env, td_in, max_nodes=MAX_NODES, max_depth=O.step_bound(inst) + 2, companion=companion)
     ctx.count("c05_explorer_nodes", st["nodes"])
     if st["dead_ends"]:
         ctx.violation(sig_of(cfg, q="dead_end", family=family), f"explorer reached a state with no feasible action after {list(st['dead_ends'][0])}", dict(inst=inst, prefix=list(st["dead_ends"][0])))
